@@ -197,7 +197,7 @@ class RefError(Exception):
     pass
 
 
-def ref_apply(state, ops):
+def ref_apply(state, ops, idempotent_delete=False):
     """Apply one session's ops serially; returns the new state (input not modified). RefError if the program
     cannot run on this state (touches a deleted object)."""
     R = {i: dict(v) for i, v in state['R'].items()}
@@ -219,12 +219,15 @@ def ref_apply(state, ops):
         elif k == 'kattr':
             if op[1] not in K: raise RefError('K missing')
         elif k == 'delete':
+            if idempotent_delete and op[1] not in R: continue
             row(op[1]); del R[op[1]]
             for kid, (p, w) in list(K.items()):
                 if p == op[1]: K[kid] = (None, w)
             L = {(r, t) for (r, t) in L if r != op[1]}
         elif k == 'delkid':
-            if op[1] not in K: raise RefError('K missing')
+            if op[1] not in K:
+                if idempotent_delete: continue
+                raise RefError('K missing')
             del K[op[1]]
         elif k == 'movekid':
             if op[1] not in K: raise RefError('K missing')
@@ -304,7 +307,9 @@ def serial_results_units(units_per_session, state=None):
         for i in range(len(seqs)):
             if pos[i] < len(seqs[i]):
                 u = seqs[i][pos[i]]
-                try: st2 = ref_apply(st, u['ops'])
+                # a DELETE carries no optimistic criteria: deleting a row that another committed unit has already
+                # deleted affects no row and raises nothing, so in the serial model it is a no-op, not an impossibility
+                try: st2 = ref_apply(st, u['ops'], idempotent_delete=True)
                 except RefError: continue
                 pos[i] += 1; order.append(u['name'])
                 rec(pos, st2, order)
